@@ -184,6 +184,9 @@ func coalesceGlobals(printf printFn, dest, src map[string]interface{}, prefix st
 func copyMap(src map[string]interface{}) map[string]interface{} {
 	m := make(map[string]interface{}, len(src))
 	for k, v := range src {
+		if t, ok := v.(map[string]interface{}); ok {
+			v = copyMap(t)
+		}
 		m[k] = v
 	}
 	return m
